@@ -520,3 +520,41 @@ def is_emptiness(test: ast.AST, pol: bool):
     if isinstance(test, (ast.Name, ast.ListComp, ast.List)):
         return test, not pol
     return None
+
+
+# --------------------------------------------------------------------------------------------------------------------
+def shared_mutable_defaults(ctx, o, funcs, what="state"):
+    """a parameter whose DEFAULT is a mutable literal ([], {}, set(), list(), dict()) and which is stored on an object or
+    mutated in place: the one default object is shared by every call (bookings / memo entries of an earlier call are seen by
+    the next one).  Reading such a default is harmless and not reported."""
+    MUT = ('append', 'extend', 'insert', 'add', 'update', 'setdefault', 'pop', 'remove', 'clear', 'sort')
+    n = 0
+    for f in funcs:
+        if isinstance(f.node, ast.Lambda):
+            continue
+        a = f.node.args
+        pos = a.posonlyargs + a.args
+        pairs = list(zip([x.arg for x in pos][len(pos) - len(a.defaults):], a.defaults)) + \
+            [(k.arg, d) for k, d in zip(a.kwonlyargs, a.kw_defaults) if d is not None]
+        for name, d in pairs:
+            mutable = isinstance(d, (ast.List, ast.Dict, ast.Set)) or (isinstance(d, ast.Call) and isinstance(d.func, ast.Name) and
+                                                                      d.func.id in ('list', 'dict', 'set') and not d.args)
+            if not mutable:
+                continue
+            n += 1
+            bad = None
+            for x in walk_no_nested(f.node):
+                if isinstance(x, (ast.Assign, ast.AnnAssign)) and x.value is not None:
+                    tg = x.targets if isinstance(x, ast.Assign) else [x.target]
+                    if any(isinstance(t, ast.Attribute) for t in tg) and any(isinstance(v, ast.Name) and v.id == name for v in ast.walk(x.value)) \
+                            and not (isinstance(x.value, ast.Call) and isinstance(x.value.func, ast.Name) and x.value.func.id in ('list', 'dict', 'set', 'sorted', 'tuple')):
+                        bad = (x, f"stored on `{src(tg[0])}`")
+                if isinstance(x, ast.Call) and isinstance(x.func, ast.Attribute) and isinstance(x.func.value, ast.Name) and \
+                        x.func.value.id == name and x.func.attr in MUT:
+                    bad = (x, f"mutated by `.{x.func.attr}()`")
+            if bad:
+                o.refute(f, bad[0], f"mutable default of `{name}`", f"parameter `{name}` of {f.qual} defaults to the mutable `{src(d)}` and is {bad[1]}: the default "
+                         f"object is shared by all calls, so {what} of an earlier call leaks into the next one")
+            else:
+                o.site(f, f.node, f"mutable default of `{name}` only read")
+    return n
